@@ -111,6 +111,9 @@ structure State where
   -- signature manager (..08) and vote ledgers of the cross chain manager (..03)
   sigs : List (Bytes × (Bool × List (Addr × Bytes))) := []
   votes : List (Bytes × (Bool × List Addr)) := []
+  /-- node-local cache of the transaction pool actor (txnpool/proc permittedAddrMap): addresses that may submit
+  transactions besides the registered relayers; filled from the pool of the current view, never pruned -/
+  permitted : List Addr := []
 
 inductive Fail | err | panic
 deriving DecidableEq, Repr
@@ -280,15 +283,19 @@ def dupPk : List (Nat × String × Addr) → Bool
   | [] => false
   | p :: t => t.any (fun q => q.2.1 = p.2.1) || dupPk t
 
+/-- index records written by `InitConfig`: one per peer, under the decoded key -/
+def pidxFold (acc : List (Bytes × Nat)) (peers : List (Nat × String × Addr)) : List (Bytes × Nat) :=
+  peers.foldl (fun acc p => match decodePk p.2.1 with
+    | some b => alPut acc b p.1
+    | none => acc) acc
+
 /-- `InitConfig` (delays and VRF strings of the configuration are fixed valid values in the harness). -/
 def initConfig (s : State) (mbcv : Nat) (peers : List (Nat × String × Addr)) : M Plan :=
   if s.gv.isSome then .error .err else
   if dupIdx peers || dupPk peers then .error .err else
   if peers.any (fun p => p.1 = 0 || (addrOfPk s p.2.1).isNone) then .error .err else
   let items := peers.map (fun p => ({ index := p.1, pk := p.2.1, addr := p.2.2, status := .cons } : PeerItem))
-  let pidx := peers.foldl (fun acc p => match decodePk p.2.1 with
-    | some b => alPut acc b p.1
-    | none => acc) s.pidx
+  let pidx := pidxFold s.pidx peers
   let maxId := peers.foldl (fun m p => if p.1 > m then p.1 else m) 0
   let cfg : Config := { blockMsgDelay := 10000, hashMsgDelay := 10000, peerHandshakeTimeout := 10, maxBlockChangeView := mbcv }
   .ok (.done { st := { s with pools := alPut (alPut s.pools 0 items) 1 items, pidx := pidx, candIndex := some (maxId + 1),
@@ -369,6 +376,10 @@ def operatorOk (s : State) : Bool :=
     | none => false
     | some cons => decide (1 ≤ cons.length ∧ cons.length ≤ 16)
 
+/-- `TxActor.isValidSender`: some signer is a registered relayer or a permitted address. -/
+def admit (s : State) (signers : List Addr) : Bool :=
+  signers.any (fun a => s.relayers.contains a || s.permitted.contains a)
+
 inductive Op
   | key (pk : Bytes) (addr : Addr)
   | height (h : Nat)
@@ -397,6 +408,13 @@ inductive Op
   | svapprrm (signers : List Addr) (id : Nat) (addr : Addr)
   | vote (id : Bytes) (addr : Addr)
   | sig (signers : List Addr) (addr : Addr) (subject sig : Bytes)
+  /-- txnpool/proc: is a transaction signed by `signers` admitted? -/
+  | admit (signers : List Addr)
+  /-- txnpool/proc updatePermittedAddrMap (`operator`: multi-signature address of all pool members, an oracle value;
+  `none` when it cannot be formed) -/
+  | refresh (operator : Option Addr)
+  /-- node restart: the permitted cache is empty again -/
+  | restart
 
 section
 variable (H : Bytes → Bytes)
@@ -615,6 +633,21 @@ def plan (s : State) : Op → M Plan
         | some (info, emit) =>
           .ok (.done { st := { s with sigs := alPut s.sigs (H subject) info }, ret := "1",
                        events := if emit then ["AddSignatureQuorum"] else [] })
+  -- transaction pool admission (reads the relayer registry and the permitted cache; no chain state changes)
+  | .admit sg => .ok (.done { st := s, ret := if admit s sg then "1" else "0", events := [] })
+  -- bactor.UpdatePermittedAddrMap: every member of the pool of the current view (whatever its status) and their
+  -- multi-signature address become permitted; nothing is ever removed
+  | .refresh operator =>
+    match curPool s with
+    | none => .error .err
+    | some (_, pool) =>
+      match pool.mapM (fun it => addrOfPk s it.pk) with
+      | none => .error .err
+      | some addrs =>
+        match operator with
+        | none => .ok (.done { st := { s with permitted := addrs.foldl addOnce s.permitted }, ret := "0", events := [] })
+        | some o => .ok (.done { st := { s with permitted := addOnce (addrs.foldl addOnce s.permitted) o }, ret := "1", events := [] })
+  | .restart => .ok (.done { st := { s with permitted := [] }, ret := "", events := [] })
 
 /-- Carrying out a plan: an approval goes through `CheckConsensusSigns`; the action is applied iff the quorum is reached. -/
 def runPlan (s : State) : Plan → M Out
